@@ -5,6 +5,7 @@ import (
 	"crypto/cipher"
 	"encoding/binary"
 	"encoding/hex"
+	"errors"
 	"fmt"
 	"io"
 	"path/filepath"
@@ -31,11 +32,6 @@ var (
 	ivData1  = [encryptionKeySize]byte{0x69, 0x47, 0x47, 0x72, 0xaf, 0x6f, 0xda, 0xb3, 0x42, 0x74, 0x3a, 0xef, 0xaa, 0x18, 0x62, 0x87}
 )
 
-type cbcMode interface {
-	cipher.BlockMode
-	SetIV(iv []byte)
-}
-
 type region struct {
 	start, end sizeSectors
 }
@@ -61,9 +57,7 @@ type EncryptedISO struct {
 	clearRegions      bool
 	regionsHeaderSize sizeBytes
 	encryptedRegions  []region
-	cip               cipher.Block // to use in ReadAt
-	cbcDec            cbcMode
-	iv                []byte
+	cip               cipher.Block
 	offset            sizeBytes // to track where we are now without calling Seek
 }
 
@@ -135,43 +129,91 @@ func NewEncryptedISO(f afero.File, data1 []byte, clearRegions bool) (*EncryptedI
 		return nil, err
 	}
 
-	var iv [encryptionKeySize]byte
 	return &EncryptedISO{
 		clearRegions:      clearRegions,
 		regionsHeaderSize: sizeBytes(binary.Size(hdr) + binary.Size(unencryptedRegions)),
 		privateFile:       f,
 		encryptedRegions:  encryptedRegions,
-		cbcDec:            cipher.NewCBCDecrypter(cip, iv[:]).(cbcMode),
-		iv:                iv[:],
+		cip:               cip,
 	}, nil
 }
 
 func (e *EncryptedISO) Read(b []byte) (int, error) {
-	readStart := e.offset
+	read, err := e.ReadAt(b, int64(e.offset))
+	e.offset += sizeBytes(read)
 
-	read, err := e.privateFile.Read(b)
-	if err != nil || read == 0 {
-		return read, err
+	if read > 0 && errors.Is(err, io.EOF) {
+		err = nil // reader contract: EOF will be reported by the next call
 	}
 
-	e.offset += sizeBytes(read)
-	e.clearRegionsData(readStart, b[:read])
-	e.decryptData(readStart, b[:read], false)
-	return read, nil
+	return read, err
 }
 
 func (e *EncryptedISO) ReadAt(b []byte, off int64) (int, error) {
-	read, err := e.privateFile.ReadAt(b, off)
-	if err != nil || read == 0 {
-		return read, err
+	if len(b) == 0 {
+		return 0, nil
 	}
 
-	e.clearRegionsData(sizeBytes(off), b[:read])
-	e.decryptData(sizeBytes(off), b[:read], true)
-	return read, nil
+	if off < 0 {
+		return 0, syscall.EINVAL
+	}
+
+	// Sector can be decrypted only as a whole, so we have to read all sectors touched by requested range.
+	// Most of the time requests are aligned to sector and caller's buffer is used directly.
+	reqStart, reqEnd := sizeBytes(off), sizeBytes(off)+sizeBytes(len(b))
+	start, end := reqStart.floorSectors().bytes(), reqEnd.sectors().bytes()
+
+	buf := b
+	if start != reqStart || end != reqEnd {
+		buf = make([]byte, end-start)
+	}
+
+	var (
+		read int
+		err  error
+	)
+	for read < len(buf) && err == nil { // one underlying read may be not enough
+		var n int
+		n, err = e.privateFile.ReadAt(buf[read:], int64(start)+int64(read))
+		read += n
+
+		if n == 0 && err == nil {
+			err = io.ErrNoProgress
+		}
+	}
+
+	e.clearRegionsData(start, buf[:read])
+	e.decryptData(start, buf[:read])
+
+	ret := min(sizeBytes(read)-(reqStart-start), sizeBytes(len(b)))
+	if ret <= 0 {
+		if err == nil {
+			err = io.EOF
+		}
+
+		return 0, err
+	}
+
+	if start != reqStart || end != reqEnd {
+		copy(b, buf[reqStart-start:][:ret])
+	}
+
+	if ret == sizeBytes(len(b)) {
+		return int(ret), nil
+	}
+
+	if err == nil {
+		err = io.EOF
+	}
+
+	return int(ret), err
 }
 
 func (e *EncryptedISO) Seek(offset int64, whence int) (int64, error) {
+	if whence == io.SeekCurrent { // reads don't move position of underlying file
+		offset, whence = offset+int64(e.offset), io.SeekStart
+	}
+
 	newOffset, err := e.privateFile.Seek(offset, whence)
 	if err != nil {
 		return newOffset, err
@@ -191,7 +233,8 @@ func (e *EncryptedISO) clearRegionsData(start sizeBytes, data []byte) {
 	}
 }
 
-func (e *EncryptedISO) decryptData(start sizeBytes, data []byte, cloneCBC bool) {
+// decryptData decrypts all complete sectors of encrypted regions in data. Start must be aligned to sector.
+func (e *EncryptedISO) decryptData(start sizeBytes, data []byte) {
 	end := start + sizeBytes(len(data))
 	for _, region := range e.encryptedRegions {
 		if region.end <= start.sectors() || region.start > end.sectors() { // not covered
@@ -199,10 +242,10 @@ func (e *EncryptedISO) decryptData(start sizeBytes, data []byte, cloneCBC bool) 
 		}
 
 		startSector := max(region.start, start.floorSectors())
-		endSector := min(region.end, end.sectors())
+		endSector := min(region.end, end.floorSectors())
 		for i := startSector; i < endSector; i++ {
 			encryptedSpan := data[i.bytes()-start : i.next().bytes()-start]
-			e.setIVForSector(i, cloneCBC).CryptBlocks(encryptedSpan, encryptedSpan)
+			e.decrypterForSector(i).CryptBlocks(encryptedSpan, encryptedSpan)
 		}
 	}
 }
@@ -215,15 +258,9 @@ func (*EncryptedISO) Truncate(int64) error { return syscall.EPERM }
 
 func (*EncryptedISO) WriteString(string) (int, error) { return 0, syscall.EPERM }
 
-func (e *EncryptedISO) setIVForSector(sector sizeSectors, clone bool) cipher.BlockMode {
-	if !clone { // called from Read, may reuse state
-		binary.BigEndian.PutUint32(e.iv[len(e.iv)-4:], uint32(sector))
-		e.cbcDec.SetIV(e.iv)
-		return e.cbcDec
-	}
-
-	// called from ReadAt, by convention it may be called from multiple goroutines, so we can't reuse state
-	// probably should be optimized, but it's not used now
+// decrypterForSector returns decrypter with IV for given sector.
+// It doesn't share any state, so ReadAt may be called from multiple goroutines.
+func (e *EncryptedISO) decrypterForSector(sector sizeSectors) cipher.BlockMode {
 	var iv [encryptionKeySize]byte
 	binary.BigEndian.PutUint32(iv[len(iv)-4:], uint32(sector))
 	return cipher.NewCBCDecrypter(e.cip, iv[:])
